@@ -25,7 +25,9 @@ META = {
         "bound method (machine/model/listener), free function, class-body function, functools.partial "
         "attribute, coroutine function; call shapes 0-5 positionals x subsets of user and reserved "
         "keywords; kwargs forwarded through an event-as-callback; pairs of callbacks with equal "
-        "__qualname__ and different signatures. distinct_nontrivial = distinct (kind sequence, "
+        "__qualname__ and different signatures. "
+        "callbacks also in guard roles (cond / unless / validators, inside not/and/or expressions and entry lists), user keyword values None/falsy, wrapped pairs behind a stack of 1-3 decorators, one function plain and as keyword-only partial. "
+        "distinct_nontrivial = distinct (kind sequence, "
         "call-shape class) with surplus or missing data that were decided (both readings agree)."
     ),
     "assumptions": [
